@@ -857,6 +857,10 @@ impl SavepointTransactionState {
         !self.created_persistent.is_empty() || !self.deleted_persistent.is_empty()
     }
 
+    fn has_created(&self) -> bool {
+        !self.created_persistent.is_empty()
+    }
+
     fn apply_on_commit(&mut self, tracker: &TransactionTracker) {
         // Persistent savepoints whose on-disk entry was deleted: release their
         // tracker refcount now that the deletion is durable.
@@ -2042,6 +2046,17 @@ impl WriteTransaction {
 
             system_tree.finalize_dirty_checksums()?
         };
+
+        // A persistent savepoint created in this transaction pins the tree the transaction began
+        // from. After non-durable commits that tree may not have been written out yet, and crash
+        // recovery verifies only the trees a commit slot reaches, not what a savepoint record
+        // points to. So everything buffered is written out and synced before a commit slot that
+        // contains the savepoint can reach the file; otherwise a crash during this commit could
+        // be recovered with the savepoint dangling. (Two-phase commit alone does not help: its
+        // first phase writes the new slot under the previous commit's flags.)
+        if self.savepoint_state.lock().unwrap().has_created() {
+            self.mem.flush_buffered_pages()?;
+        }
 
         let page_allocator = self.page_allocator();
         self.mem.commit(
